@@ -254,7 +254,7 @@ RICH = (("fg", 31), ("bg", 44), ("bold", True), ("underline", True), ("invert", 
 def shard_remove(args):
     tier, seed, idx = args
     acc = Acc(seed=seed)
-    specs = list(C.layouts(2, 2, palette=((), (("fg", 31),), RICH, (("bg", 41), ("bold", True)))))
+    specs = list(C.layouts(2, 2, palette=((), (("fg", 31),), RICH, (("bg", 41), ("bold", True))))) + C.huge_specs()[:4] + C.exotic_specs()[:15]
     names_pool = [()] + [(k,) for k in KINDS] + list(itertools.combinations(KINDS, 2))
     for si in range(idx, len(specs), 16):
         spec = specs[si]
@@ -414,6 +414,14 @@ def invalid_catalogue():
         ("non-string style=", (), {"style": 31}),
         ("style= unknown", (), {"style": "reddish"}),
         ("fg wrong-case keyword", (), {"fg": "RED"}),
+        ("positional colour + fg=None", ("red",), {"fg": None}),
+        ("positional colour + fg=0", ("red",), {"fg": 0}),
+        ("positional colour + fg=False", ("red",), {"fg": False}),
+        ("positional colour + fg=''", ("red",), {"fg": ""}),
+        ("positional background + bg=None", ("on_red",), {"bg": None}),
+        ("style= colour + fg=0", (), {"style": "red", "fg": 0}),
+        ("bg=''", (), {"bg": ""}),
+        ("fg=False", (), {"fg": False}),
     ]
     return cat
 
@@ -429,6 +437,9 @@ def invalid_helper_catalogue():
         ("helper background + positional background", "on_blue", ("on_red",), {}),
         ("helper + unknown keyword", "bold", (), {"colour": "red"}),
         ("helper + unknown positional", "underline", ("reddish",), {}),
+        ("helper colour + fg=None", "red", (), {"fg": None}),
+        ("helper colour + fg=0", "blue", (), {"fg": 0}),
+        ("helper background + bg=False", "on_green", (), {"bg": False}),
     ]
 
 
